@@ -59,6 +59,21 @@ for fsroot in ("/var/tmp", "/dev/shm"):
                     if not ok:
                         bad += 1
                         print("SANITY-FAIL [%s %s] xcp %s -> rc=%d %s" % (fsroot, driver, " ".join(opt + args), rc, err.strip().splitlines()[:1]))
+                if opt == ["--backup", "numbered"] or opt == ["--backup", "auto"]:
+                    # odd neighbours must not stop a backup from being made: a "number" in other digits, a name with a sign
+                    for odd in ("single.~\u0663~", "single.~+5~", "single.~~"):
+                        open(os.path.join(d, odd), "w").write("x")
+                    open(os.path.join(d, "bk"), "w").write("old")
+                    rc, err = run(["--driver", driver] + opt + ["single", "bk"], d)
+                    if rc != 0:
+                        bad += 1
+                        print("SANITY-FAIL [%s %s] xcp %s single bk -> rc=%d %s" % (fsroot, driver, " ".join(opt), rc, err.strip().splitlines()[:1]))
+                    for odd in ("bk.~\u0663~", "bk.~1~.~x~"):
+                        open(os.path.join(d, odd), "w").write("x")
+                    rc, err = run(["--driver", driver] + opt + ["single", "bk"], d)
+                    if rc != 0:
+                        bad += 1
+                        print("SANITY-FAIL [%s %s] xcp %s single bk (odd neighbours) -> rc=%d %s" % (fsroot, driver, " ".join(opt), rc, err.strip().splitlines()[:1]))
                 if opt == ["--glob"]:
                     # patterns: entries of a directory (a file, links to it, a link to a sibling directory), a recursive pattern over
                     # a tree with an ordinary link to a directory, the contents idiom
